@@ -470,7 +470,8 @@ Definition fsm_advancement : D unit :=
   if 0 <? zlen (d_queue s) then raise E_UNRETRIEVED else
   if d_step s =? DS_SENDING_EOF_ACK then
     let p := d_p s in
-    if (0 <? zlen (p_tracker p)) || p_md_missing p then start_deferred_lost_segment_handling
+    (* a transaction cancelled by an EOF (cancel) is completed, missing data is not requested (F23 repair) *)
+    if negb (p_disp p =? DISP_CANCELED) && ((0 <? zlen (p_tracker p)) || p_md_missing p) then start_deferred_lost_segment_handling
     else
       (when (negb (p_disp p =? DISP_CANCELED)) (checksum_verify ;;; ret tt)) ;;;
       set_step DS_TRANSFER_COMPLETION
@@ -558,6 +559,7 @@ Definition handle_positive_ack_procedures (again : D unit) : D unit :=
 
 Definition handle_waiting_for_finished_ack (again : D unit) (pkt : option pdu) : D unit :=
   match pkt with
+  | Some (PEof _ _ _ _ _) => prepare_eof_ack_packet          (* F24 repair: acknowledge the re-sent EOF, nothing else *)
   | Some (PAck _ _ _ _) => reset_internal
   | _ => handle_positive_ack_procedures again
   end.
@@ -580,7 +582,9 @@ Fixpoint non_idle_fsm (fuel : nat) (pkt : option pdu) : D unit :=
   when b check_limit_handling ;;;
   b <- step_is DS_WAITING_FOR_MISSING_DATA ;;
   when b
-    ((match pkt with
+    ((* CFDP 4.7.2: a re-sent EOF is acknowledged again (F24 repair) *)
+     (match pkt with Some (PEof _ _ _ _ _) => prepare_eof_ack_packet | _ => ret tt end) ;;;
+     (match pkt with
       | Some (PFileData _ off data) =>
           handle_fd_pdu off data ;;;
           active <- gp p_deferred ;;
